@@ -52,7 +52,13 @@ theorem push_str_good {ocf base st hp r t} (g : Good ocf base st hp r t) (rf : R
 
 theorem pop_good {ocf base st hp r t} (g : Good ocf base st hp r t) (rf : Refuse) :
     resOfOptChr (GenRepr.Repr.pop ⟨rf, st, hp, r⟩) = pop st hp r :=
-  pop_tie ⟨rf, st, hp, r⟩ (dataOk_of_good g) (rawOk_of_good g)
+  pop_tie ⟨rf, st, hp, r⟩ (dataOk_of_good g) (rawOk_of_good g) (by
+    intro t' ht' hne
+    simp only at ht'
+    rw [g.text] at ht'; injection ht' with ht'; subst ht'
+    have hne' : t ≠ [] := by intro h; rw [h] at hne; cases hne
+    obtain ⟨h1, _, _⟩ := valid_pop g.valid hne'
+    omega)
 
 theorem insert_str_good {ocf base st hp r t} (g : Good ocf base st hp r t) (rf : Refuse) (i : Nat) (s : Bytes) (hs : Valid s) :
     resOf (GenRepr.Repr.insert_str i ⟨s⟩ ⟨rf, st, hp, r⟩) = insertStr rf st hp r i s := by
